@@ -133,7 +133,13 @@ def sort_a(h):
 OPS.append(("a sort true", "a sort true", sort_a))
 
 # copying operations: result bound to d, then d and the source are mutated separately by later operations
+def has_map(x):
+    return isinstance(x, dict) or (isinstance(x, list) and any(has_map(e) for e in x))
+
+
 def deep(x):
+    if has_map(x):
+        raise Unspecified()     # whether + copies a HashMap held by the array is not fixed by the statement (it is about arrays)
     return copy.deepcopy(x)
 OPS.append(("d = +a", "d = +a", lambda h: h.__setitem__("d", deep(h["a"]))))
 OPS.append(("d = +c", "d = +c", lambda h: h.__setitem__("d", deep(h["c"]))))
